@@ -1,6 +1,7 @@
 """C04 — score to MIDI to score preserves every note's timing and pitch exactly."""
 from ..rules import generic as G
 from ..rules import midi as M
+from ..rules import extra as X
 
 EXPLANATION = (
     "Static analysis of save_score_midi / map_to_track_channel / get_ppq and the importer's mode dispatch. Decides: "
@@ -25,6 +26,7 @@ def run(ctx):
     M.rule_ppq_defuse(ctx)
     M.rule_modes(ctx)
     M.rule_tied_export(ctx)
+    X.rule_tick_order(ctx)
     G.rule_F7a(ctx, [ctx.prog.func(q) for q in ENTRY])
     G.rule_F8a(ctx, ENTRY, "score midi export")
     G.rule_F4d(ctx, [ctx.prog.func(q) for q in ENTRY], "score midi export", floor=3)
